@@ -445,3 +445,88 @@ Proof. intros H. rewrite <- (shape_keys m1), <- (shape_keys m2), H. reflexivity.
 
 Lemma shape_num {V} {W} (m1 : slotmap V) (m2 : slotmap W) : shape m1 = shape m2 -> sm_num m1 = sm_num m2.
 Proof. intros H. apply (f_equal (@sm_num unit)) in H. exact H. Qed.
+
+(* ------------------------------------------------------------------ clear *)
+
+Definition clear_step {V} (acc : slotmap V) (idx : nat) : slotmap V :=
+  match nth_error (sm_slots acc) idx with
+  | Some s => if slot_occupied s then fst (sm_remove_from_slot acc idx) else acc
+  | None => acc
+  end.
+
+Lemma sm_clear_fold {V} (m : slotmap V) : sm_clear m = fold_left clear_step (seq 1 (length (sm_slots m) - 1)) m.
+Proof. reflexivity. Qed.
+
+Lemma clear_step_spec {V} (m : slotmap V) idx : sm_inv m ->
+  sm_inv (clear_step m idx) /\ length (sm_slots (clear_step m idx)) = length (sm_slots m) /\
+  forall k, sm_get (clear_step m idx) k = if Nat.eqb (fst k) idx then None else sm_get m k.
+Proof.
+  intros Hi. unfold clear_step. destruct (nth_error (sm_slots m) idx) as [[ver c]|] eqn:E.
+  - pose proof (Forall_nth (inv_parity m Hi) E) as Hpar. unfold is_occ in Hpar. cbn [s_ver s_cont] in Hpar.
+    unfold slot_occupied. cbn [s_ver]. destruct c as [v|nf].
+    + rewrite Hpar.
+      assert (Hg : sm_get m (idx, ver) = Some v) by (apply sm_get_Some; exact E).
+      destruct (sm_remove_spec m (idx, ver) v Hi Hg) as [G [I _]].
+      assert (Eq : sm_remove m (idx, ver) = sm_remove_from_slot m idx).
+      { unfold sm_remove. rewrite (sm_contains_get Hg). reflexivity. }
+      rewrite Eq in G, I. split; [exact I|]. split.
+      * unfold sm_remove_from_slot. rewrite E. cbn [fst sm_slots]. apply upd_length.
+      * intros k. rewrite G. destruct (Nat.eqb_spec (fst k) idx) as [Ek|Ek].
+        -- destruct (key_eqb_spec (idx, ver) k) as [|Hne]; [reflexivity|].
+           unfold sm_get. rewrite Ek, E. cbn [s_ver s_cont].
+           destruct (N.eqb_spec ver (snd k)) as [Ev|]; [|reflexivity].
+           exfalso. apply Hne. destruct k; simpl in *; congruence.
+        -- destruct (key_eqb_spec (idx, ver) k) as [<-|Hne]; [simpl in Ek; congruence | reflexivity].
+    + rewrite Hpar. split; [exact Hi|]. split; [reflexivity|].
+      intros k. destruct (Nat.eqb_spec (fst k) idx) as [Ek|Ek]; [|reflexivity].
+      eapply sm_get_None_vac. rewrite Ek. exact E.
+  - split; [exact Hi|]. split; [reflexivity|].
+    intros k. destruct (Nat.eqb_spec (fst k) idx) as [Ek|Ek]; [|reflexivity].
+    apply sm_get_None_oob. rewrite Ek. exact E.
+Qed.
+
+Lemma fold_clear_spec {V} (is : list nat) : forall (m : slotmap V), sm_inv m ->
+  sm_inv (fold_left clear_step is m) /\ length (sm_slots (fold_left clear_step is m)) = length (sm_slots m) /\
+  forall k, sm_get (fold_left clear_step is m) k = if existsb (Nat.eqb (fst k)) is then None else sm_get m k.
+Proof.
+  induction is as [|i r IH]; intros m Hi; simpl.
+  - split; [exact Hi|]. split; reflexivity.
+  - destruct (clear_step_spec m i Hi) as [I1 [L1 G1]]. destruct (IH _ I1) as [I2 [L2 G2]].
+    split; [exact I2|]. split; [congruence|]. intros k. rewrite G2, G1.
+    destruct (Nat.eqb (fst k) i); simpl; [|reflexivity]. destruct (existsb (Nat.eqb (fst k)) r); reflexivity.
+Qed.
+
+Lemma sm_clear_spec {V} (m : slotmap V) : sm_inv m -> sm_inv (sm_clear m) /\ forall k, sm_get (sm_clear m) k = None.
+Proof.
+  intros Hi. rewrite sm_clear_fold. destruct (fold_clear_spec (seq 1 (length (sm_slots m) - 1)) m Hi) as [I [_ G]].
+  split; [exact I|]. intros k. rewrite G.
+  destruct (existsb (Nat.eqb (fst k)) (seq 1 (length (sm_slots m) - 1))) eqn:Ex; [reflexivity|].
+  destruct (inv_sentinel m Hi) as [sv [sn Hs]].
+  destruct (Nat.eq_dec (fst k) 0) as [E0|E0].
+  - eapply sm_get_None_vac. rewrite E0. exact Hs.
+  - apply sm_get_None_oob. apply nth_error_None.
+    destruct (Nat.lt_ge_cases (fst k) (length (sm_slots m))) as [Hlt|Hge]; [|exact Hge].
+    exfalso. assert (Ht : existsb (Nat.eqb (fst k)) (seq 1 (length (sm_slots m) - 1)) = true).
+    { apply existsb_exists. exists (fst k). split; [apply in_seq; lia | apply Nat.eqb_refl]. }
+    congruence.
+Qed.
+
+Lemma shape_clear_step {V} (m : slotmap V) idx : shape (clear_step m idx) = clear_step (shape m) idx.
+Proof.
+  unfold clear_step. cbn [shape sm_slots]. rewrite nth_error_map.
+  destruct (nth_error (sm_slots m) idx) as [s|]; [|reflexivity]. cbn [option_map].
+  unfold slot_occupied. cbn [sshape s_ver]. destruct (N.odd (s_ver s)); [apply shape_remove_from_slot | reflexivity].
+Qed.
+
+Lemma shape_clear {V} (m : slotmap V) : shape (sm_clear m) = sm_clear (shape m).
+Proof.
+  rewrite !sm_clear_fold. cbn [shape sm_slots]. rewrite map_length.
+  generalize (seq 1 (length (sm_slots m) - 1)). intros is. revert m.
+  induction is as [|i r IH]; intros m; simpl; [reflexivity|]. rewrite IH, shape_clear_step. reflexivity.
+Qed.
+
+Lemma sm_keys_nil {V} (m : slotmap V) : (forall k, sm_get m k = None) -> sm_keys m = [].
+Proof.
+  intros H. destruct (sm_keys m) as [|k r] eqn:E; [reflexivity|]. exfalso.
+  assert (Hk : In k (sm_keys m)) by (rewrite E; left; reflexivity). apply sm_keys_In' in Hk. apply Hk, H.
+Qed.
